@@ -713,3 +713,50 @@ func cloneX(e *XExpr) *XExpr {
 	}
 	return &c
 }
+
+// DesignedXGrammar builds a small conflict-free grammar that contains, by construction, the
+// shapes that random generation only hits occasionally: two lists over the same element that
+// differ only in the node name, a rule ending with a nonterminal that is empty only through an
+// alternative carrying a semantic action (fixWhitespace only), and a no-eoi input whose node
+// types occur nowhere else.
+func DesignedXGrammar(r *rand.Rand, fixWS bool) *XGrammar {
+	g := &XGrammar{FixWS: fixWS}
+	for i := 0; i < 9; i++ {
+		g.Terms = append(g.Terms, TermName(i))
+	}
+	perm := r.Perm(9)
+	t := func(i int) *XExpr { return &XExpr{Kind: XTerm, Sym: perm[i]} }
+	nt := func(i int) *XExpr { return &XExpr{Kind: XNonterm, Sym: i} }
+	seq := func(es ...*XExpr) *XExpr { return &XExpr{Kind: XSeq, Sub: es} }
+	arrow := func(name string, es ...*XExpr) *XExpr {
+		g.Types = append(g.Types, name)
+		return &XExpr{Kind: XArrow, Sub: []*XExpr{seq(es...)}, Arrow: name}
+	}
+	list := func(name string, sep int) *XExpr {
+		l := &XExpr{Kind: XList, Sep: sep, Plus: true}
+		l.Sub = []*XExpr{seq(arrow(name, t(3)))}
+		return l
+	}
+	sep := -1
+	if r.Intn(2) == 0 {
+		sep = perm[8]
+	}
+	g.Twins = 1
+	body := []*XExpr{t(0), list("Ta", sep), t(1), list("Tb", sep), t(2)}
+	if fixWS {
+		body = append(body, nt(1)) // trailing nonterminal that may be empty
+	} else {
+		body = append([]*XExpr{t(0), nt(1)}, body[1:]...)
+	}
+	g.Types = append(g.Types, "Root", "Tail", "Snip", "Inner")
+	g.Nonterms = []*XNT{
+		{Name: "N0", Arrow: "Root", Rules: []*XRule{{Body: seq(body...)}}},
+		{Name: "N1", Rules: []*XRule{
+			{Body: seq(), Action: "{ vlog(\"empty tail\") }"},
+			{Body: seq(t(4)), Arrow: "Tail"},
+		}},
+		{Name: "N2", Arrow: "Snip", Rules: []*XRule{{Body: seq(t(5), arrow("Inner", t(6)), t(7))}}},
+	}
+	g.Inputs = []Input{{NT: 0}, {NT: 2, NoEoi: true}}
+	return g
+}
